@@ -305,7 +305,7 @@ contract("bin_velocity", params={"velocity": "int", "bins": "list:int?"}, result
 
 FIRST = "result[k].g_msgs[0]"
 contract("Sequence.get_interleaved_message_pairings", params={"self": "ref:Sequence", "message_types": "list:int?", "standard_length": "int", "impute_notes": "bool"},
-         result="list:ref:Pairing", allocates=True, trusted=True,
+         result="list:ref:Pairing", allocates="keep_fields", trusted=True,
          note="front end of tokenise (C01.d): after set_channel(i) / merge, the interleaved pairings are the piece's notes (NOTE_ON, NOTE_OFF) in onset order, its time signatures and the end markers; validated by the bounded tier",
          requires=[], modifies=dict({"@msgfields": "*", "@lists": "*", "_messages": "*", "_abs": "*", "_rel": "*", "_abs_stale": "*", "_rel_stale": "*"}),
          ensures=[("pairings", f"forall(0, len(result), lambda k: not is_none(result[k]) and len(result[k].g_msgs) >= 1 and not is_none({FIRST}.message_type)"
